@@ -20,7 +20,7 @@ def walk(rec, B, rng, N, steps, query, sub="live", start=None, allow_measure=Tru
     gates = [PR.make_gate(B, PR.rand_spec(rng, N, named=(B.name == "np")), N) for _ in range(2)] if N >= 1 else []
     gate_specs = None
     for step in range(steps):
-        k = int(rng.integers(8 if allow_measure else 6))
+        k = int(rng.integers(9 if allow_measure else 6))
         try:
             if k == 0:
                 Gn, PG = gen.rand_nonid(rng, N), 2 * int(rng.integers(2))
@@ -63,6 +63,20 @@ def walk(rec, B, rng, N, steps, query, sub="live", start=None, allow_measure=Tru
             elif k == 5:
                 S = S.copy()
                 hist.append(["copy"])
+            elif k == 8:
+                # post-selection of a signed Pauli (pure states, pyclifford only): probability 0 leaves the state alone
+                if B.name != "np" or G.r != 0 or not hasattr(S, "postselect"):
+                    continue
+                Gn, PG = gen.rand_nonid(rng, N), 2 * int(rng.integers(2))
+                bit = int(rng.integers(2))
+                want = G.copy().project(Gn, PG, bit)
+                prob = S.postselect(B.Pauli(Gn, PG), bit)
+                if want > 0:
+                    G.project(Gn, PG, bit)
+                hist.append(["postselect", O.show(Gn, PG), bit, float(prob)])
+                if abs(float(prob) - want) > 1e-9:
+                    rec.check(sub + ".postselect", False, {"history": hist[-6:]}, True, expected=want, observed=float(prob))
+                    return
             elif B.name == "np":
                 g0, p0, r0 = B.state(S)
                 og, op = gen.commuting_hermitian_list(rng, g0, p0, r0, int(rng.integers(1, 3)))
